@@ -450,7 +450,7 @@ func vfRunBatch(rep *verifkit.Report, sc *vfBatchScenario, id string) {
 		errP.mu.Unlock()
 		for _, l := range wantPass {
 			if !strings.Contains(all, l) {
-				rep.Violation("batch/stderr-line-swallowed", fmt.Sprintf("stderr line %q was neither attributed nor passed through", l), w)
+				rep.Violation("batch/stderr-line-swallowed", fmt.Sprintf("stderr line %q (%d bytes) was neither attributed nor passed through", verifkit.Trunc(l, 80), len(l)), w)
 			}
 		}
 		rep.Count("stderr_scripts_checked", 1)
@@ -500,7 +500,10 @@ func TestVerifC11Batch(t *testing.T) {
 			}
 			var sb strings.Builder
 			for j := rng.Intn(6); j >= 0; j-- {
-				switch rng.Intn(5) {
+				switch rng.Intn(6) {
+				case 5:
+					// a very long line (a stack dump, a hex dump): longer than any fixed line buffer
+					sb.WriteString("goroutine dump: " + strings.Repeat("x", verifkit.Pick(rng, []int{5000, 65535, 65536, 70000, 300000})) + " END-OF-LONG-LINE\n")
 				case 0:
 					sb.WriteString(verifkit.Pick(rng, names) + ": expected protocol X; instead got Y\n")
 				case 1:
